@@ -4,9 +4,11 @@
      (3 (s ...) (pool ...) maxc fuel) enumerate replayable schedules
      (4 (s ...) (pool ...) maxc (choice ...)) one schedule by a guided walk
      (5 (byte ...))                   utf8_dec alone
-     (6 (s ...) (label ...) (mask ...)) as 2, only the observations with mask <> 0 *)
+     (6 (s ...) (label ...) (mask ...)) as 2, only the observations with mask <> 0
+     (7 (s ...) (elabel ...))         replay at the granularity of the loader's single event.set() calls
+     (8 (s ...) maxc fuel) / (9 (s ...) maxc (choice ...))   enumerate / walk such schedules *)
 From Coq Require Import ZArith List Bool.
-From PTK Require Import Lib.Sx Lib.Py Model.C13_Utf8 Model.C13_HistFile Model.C13_Threaded Model.C13_ThreadedLate.
+From PTK Require Import Lib.Sx Lib.Py Model.C13_Utf8 Model.C13_HistFile Model.C13_Threaded Model.C13_ThreadedLate Model.C13_ThreadedEv.
 Import ListNotations.
 Open Scope Z_scope.
 
@@ -16,6 +18,9 @@ Definition run_C13 (c : sx) : sx :=
   | L [A 2; s0; L labels] => run_threaded s0 labels
   | L [A 3; s0; pool; A maxc; A fuel] => run_enum s0 pool maxc fuel
   | L [A 4; s0; pool; A maxc; ch] => run_walk s0 pool maxc ch
+  | L [A 7; s0; L labels] => run_ev s0 labels
+  | L [A 8; s0; A maxc; A fuel] => run_eenum s0 maxc fuel
+  | L [A 9; s0; A maxc; ch] => run_ewalk s0 maxc ch
   | L [A 6; s0; L labels; mask] => run_threaded_masked s0 labels mask
   | L [A 5; b] => match as_str b with Some b' => sx_str (utf8_dec b') | None => bad_case end
   | _ => bad_case
